@@ -4,12 +4,29 @@ import (
 	"encoding/json"
 	"fmt"
 	"os"
+	"strings"
 
 	"verif/common"
 )
 
 // SpecFor returns the enumeration job of a property/tier.
 func SpecFor(prop, tier string) MassSpec {
+	sp := specFor(prop, tier)
+	if strings.Contains(os.Getenv("VERIF_CONFIG"), "field-directive") {
+		// the schema declares the executable directive @fq on FIELD: operations put it on one field
+		fqOps := []Op{
+			{Text: `{t{id @fq name @fq(tag:"x") kid{req @fq}} str @fq}`},
+			{Text: `{ts{plain @fq kidsReq{id @fq}} node{id @fq ... on T{name @fq}}}`},
+			{Text: `{t{guarded @fq ints @fq} tReq{req @fq}}`},
+			{Text: `mutation{m1{name @fq} m3 @fq}`},
+		}
+		sp.ExtraOps = append(sp.ExtraOps, fqOps...)
+		sp.Gens = append(sp.Gens, GenCfg{Root: "Query", Fields: fieldsFor("core"), Conds: ProbeConds, MaxNodes: 3, DirVariants: []string{"@fq"}})
+	}
+	return sp
+}
+
+func specFor(prop, tier string) MassSpec {
 	thorough := tier == "thorough"
 	switch prop {
 	case "C01":
@@ -63,6 +80,8 @@ func CorpusOps() []Op {
 		`{arg arg2:arg(x:1) arg3:arg(x:2,y:["a","b"])}`,
 		`{peers{id peer{id} ... on T{name times optStrs} ... on S{title}}}`,
 		`{t{times optStrs} ts{times}}`,
+		// type conditions naming a UNION: on its members, on the union itself, through a named fragment
+		`{t{... on U{__typename} id} u{... on U{__typename ... on T{name}} ...FU} node{... on U{__typename}}} fragment FU on U{... on S{title}}`,
 	}
 	var out []Op
 	for _, q := range qs {
